@@ -125,7 +125,10 @@ pub fn sheet_xml(p: &str, sh: &Value) -> String {
                     a.push_str(&format!(" t=\"{}\"", ty));
                 }
                 let mut kids = String::new();
-                if let Some(f) = t["f"].as_str() {
+                if let Some(raw) = t["f_raw"].as_str() {
+                    // formula text already in its physical (escaped / CDATA) form
+                    kids.push_str(&format!("<{f}>{t}</{f}>", f = q(p, "f"), t = raw));
+                } else if let Some(f) = t["f"].as_str() {
                     let mut fa = String::new();
                     if let Some(o) = t["fattrs"].as_object() {
                         for (k, v) in o {
